@@ -119,11 +119,16 @@ def parseFine (t : String) : Option EngineFine.Label2 :=
   | ["test", w] => do some (.test (← w.toNat?))
   | ["put", w] => do some (.put (← w.toNat?))
   | ["unl", w] => do some (.unlock (← w.toNat?))
+  | ["facq", w] => do some (.facquire (← w.toNat?))
+  | ["fcount", w] => do some (.fcount (← w.toNat?))
+  | ["ffirst", w] => do some (.ffirst (← w.toNat?))
+  | ["fstop", w] => do some (.fstop (← w.toNat?))
+  | ["funl", w] => do some (.funlock (← w.toNat?))
   | "b" :: rest => (parseLabel rest).map .base
   | _ => none
 
 def runFine (g : Engine.Graph) (cfg : Engine.Cfg) : EngineFine.St2 → Nat → List String → String
-  | s, _, [] => "ok " ++ showSt g s.c ++ s!" lock={s.lock.isSome}"
+  | s, _, [] => "ok " ++ showSt g s.c ++ s!" lock={s.lock.isSome} flock={s.flock.isSome}"
   | s, k, t :: ts =>
     match parseFine t with
     | none => s!"bad-label {k} {t}"
